@@ -9,7 +9,7 @@ import glob
 import time
 import hashlib
 from .mir import parse_dump, find_matching, split_top
-from .rtypes import strip_generics, parse_type
+from .rtypes import strip_generics, parse_type, canon_callee
 
 REPO = os.environ.get('VERIF_REPO', '/repo')
 BUILD = os.environ.get('VERIF_BUILD', '/verif/.build')
@@ -102,7 +102,12 @@ class Program:
                 trait, ty = parts
             else:
                 ty = parts[0]
-            return _last_ident(strip_generics(ty)), (_last_ident(strip_generics(trait)) if trait else None)
+            tname = None
+            if trait:
+                # keep the trait's own generic arguments: they select the impl (`From<u32>` vs `From<EntityId>`)
+                cc = canon_callee(f'<X as {trait.strip()}>::m')
+                tname = cc[len('<X as '):cc.rindex('>::m')]
+            return _last_ident(strip_generics(ty)), tname
         # derive: `#[derive(A, B)]`  – span covers the trait name
         trait = line[c1 - 1:c2 - 1] if l1 == l2 else None
         k = l1
@@ -258,14 +263,18 @@ class Program:
         f = self.by_canon.get(c)
         if f:
             return f
-        # `<Type as Trait>::m` printed at call site with module path on Type or Trait
-        m = re.match(r'^<(.*) as (.*)>::(\w+)$', c)
+        cc = canon_callee(callee)
+        f = self.by_canon.get(cc)
+        if f:
+            return f
+        # `<Type as Trait<Args>>::m` printed at call site with module path / generics on Type
+        m = re.match(r'^<(.*) as (.*)>::(\w+)$', cc)
         if m:
             ty = _last_ident(m.group(1))
-            tr = _last_ident(m.group(2))
-            f = self.by_canon.get(f'<{ty} as {tr}>::{m.group(3)}')
+            f = self.by_canon.get(f'<{ty} as {m.group(2)}>::{m.group(3)}')
             if f:
                 return f
+            return None
         segs = c.split('::')
         if len(segs) >= 2:
             key = f'{_last_ident(segs[-2])}::{segs[-1]}'
